@@ -10,7 +10,7 @@ tree (tag verif), implementation and model run on the same generated cases; the 
 FAIL lines (CORR = model and implementation disagree, SPEC = the property's executable statement
 is false of the implementation's output); (3) known-findings matching, VIOLATION lines, evidence.
 """
-import argparse, glob, hashlib, json, os, re, shutil, subprocess, sys, time
+import argparse, fcntl, glob, hashlib, json, os, re, shutil, subprocess, sys, time
 
 VERIF = os.path.dirname(os.path.dirname(os.path.abspath(__file__)))
 COQ = os.path.join(VERIF, "coq")
@@ -199,8 +199,13 @@ def main():
     samples = []
     infra_problems = []
 
-    # ---------------- proof stage
-    pr = proof_stage(prop, tier, log)
+    # ---------------- proof stage (serialised across concurrently running checks: one coq tree)
+    lockf = open(os.path.join(BUILD, ".coq.lock"), "w")
+    fcntl.flock(lockf, fcntl.LOCK_EX)
+    try:
+        pr = proof_stage(prop, tier, log)
+    finally:
+        fcntl.flock(lockf, fcntl.LOCK_UN)
 
     # ---------------- correspondence stage
     total_cases = 0
